@@ -120,21 +120,27 @@ def rule_gzip_only(prog, fixture=False):
                 r.add(key, fn.loc(sw[0]), throws, "throws" if throws else
                       "zlib code %s does not raise an error: damaged or truncated data would be used" % lab)
     for fn in prog.fnby("write_decompressed_data", required=not fixture):
-        # outer loop: while (zerr != Z_STREAM_END); every break inside it is guarded by Z_BUF_ERROR && got
-        loops = [n for n in fn.walk() if n.get("k") in ("WhileStmt", "DoStmt")]
-        outer = None
-        for lp in loops:
-            # while (cond) body / do body while (cond): a do-loop's condition is its last child
-            c = strip_all(lp["c"][lp["parts"]["cond"]] if lp["k"] == "WhileStmt" else lp["c"][-1])
-            if c.get("k") == "BinaryOperator" and c.get("op") == "!=" and 1 in (folded(c["c"][0]), folded(c["c"][1])):
-                outer = lp
+        # outer loop: while (zerr != Z_STREAM_END), or a loop run by a flag that is set only at stream end;
+        # every break inside it is guarded by Z_BUF_ERROR && got
+        info = _decompression_loop(fn)
+        outer = info["node"] if info else None
         key = "%s::%s::loop-exit" % (fn.relfile(), fn.qn)
         if outer is None:
+            if any(x.get("k") == "BinaryOperator" and x.get("op") in ("==", "!=") and 1 in (folded(x["c"][0]), folded(x["c"][1]))
+                   for x in fn.walk()):
+                r.undecided.append("%s: the loop that drives decompression has a form this rule does not follow" % fn.qn)
+                continue
             r.add(key, "%s:%d" % (fn.relfile(), fn.line), False,
                   "the decompression loop is not conditioned on `zerr != Z_STREAM_END`: it can end before the stream does")
         else:
             probs = []
             g = Guards(fn)
+            if info["kind"] == "flag":
+                for a in info["sets"]:
+                    if not any(rel == "==" and 1 in (folded(l), folded(rr)) and
+                               info["status_d"] in (strip_all(l).get("d"), strip_all(rr).get("d"))
+                               for l, rel, rr in (g.cmps(a) or [])):
+                        probs.append("the loop is ended (%s) although the stream end was not reached" % fn.loc(a))
             for x in walk(outer):
                 if x.get("k") == "ReturnStmt":
                     probs.append("returns from inside the loop (%s)" % fn.loc(x))
@@ -203,6 +209,45 @@ def _true_only_with_input(t):
     return True
 
 
+def _decompression_loop(fn):
+    """The loop that drives decompression: {"kind": "status", "node", "status_d"} for
+    `while/do (zerr != Z_STREAM_END)`, {"kind": "flag", "node", "flag_d", "status_d", "sets"} for a loop run by a
+    Boolean `finished` flag that the body sets; None if no such loop."""
+    status_d = None
+    for n in fn.walk():
+        if n.get("k") == "BinaryOperator" and n.get("op") in ("==", "!=") and 1 in (folded(n["c"][0]), folded(n["c"][1])):
+            for x in (strip_all(n["c"][0]), strip_all(n["c"][1])):
+                if x is not None and x.get("k") == "DeclRefExpr" and x.get("dk") == "Var" and x.get("w", 0) >= 32:
+                    status_d = x["d"]
+    for lp in fn.walk():
+        if lp.get("k") not in ("WhileStmt", "DoStmt", "ForStmt"):
+            continue
+        if lp["k"] == "DoStmt":
+            cn = lp["c"][-1]
+        elif "cond" in lp.get("parts", {}):
+            cn = lp["c"][lp["parts"]["cond"]]
+        else:
+            continue
+        c = strip_all(cn)
+        if c is None:
+            continue
+        if c.get("k") == "BinaryOperator" and c.get("op") == "!=" and 1 in (folded(c["c"][0]), folded(c["c"][1])):
+            sv = [x for x in (strip_all(c["c"][0]), strip_all(c["c"][1])) if x is not None and x.get("k") == "DeclRefExpr"]
+            if sv:
+                return {"kind": "status", "node": lp, "cond": cn, "status_d": sv[0]["d"]}
+        flag = None
+        if c.get("k") == "UnaryOperator" and c.get("op") == "!":
+            x = strip_all(c["c"][0])
+            if x is not None and x.get("k") == "DeclRefExpr" and (x.get("t") or "") in ("bool", "_Bool"):
+                flag = x
+        if flag is not None and status_d is not None:
+            sets = [a for a in walk(lp) if a.get("k") == "BinaryOperator" and a.get("op") == "=" and
+                    (strip_all(a["c"][0]) or {}).get("d") == flag["d"] and folded(a["c"][1]) == 1]
+            if sets and any(x.get("k") == "CallExpr" and notpl(x.get("q") or "") == "fread" for x in walk(lp)):
+                return {"kind": "flag", "node": lp, "cond": cn, "flag_d": flag["d"], "status_d": status_d, "sets": sets}
+    return None
+
+
 def _false_only_at_eof(t):
     """Every `return false` of the predicate helper is reached only after a read returned EOF."""
     g = Guards(t)
@@ -215,19 +260,23 @@ def _false_only_at_eof(t):
 
 def _stops_without_eof(prog, fn, g):
     cfg = fn.cfg
-    # the loop whose condition compares the status variable with Z_STREAM_END
-    loopcond = None
-    status_d = None
-    for bid in cfg.reachable():
-        b = cfg.blocks[bid]
-        if b.get("termk") in ("WhileStmt", "DoStmt") and b.get("cond") is not None:
-            c = strip_all(fn.nodes.get(b["cond"]))
-            if c is not None and c.get("k") == "BinaryOperator" and c.get("op") == "!=" and 1 in (folded(c["c"][0]), folded(c["c"][1])):
-                loopcond = bid
-                sv = [x for x in (strip_all(c["c"][0]), strip_all(c["c"][1])) if x is not None and x.get("k") == "DeclRefExpr"]
-                status_d = sv[0]["d"] if sv else None
-    if loopcond is None or status_d is None:
+    info = _decompression_loop(fn)
+    if info is None:
         return None
+    status_d = info["status_d"]
+    stop_blocks = set()
+    if info["kind"] == "status":
+        pos = g.position(info["cond"])
+        if pos is not None:
+            stop_blocks.add(pos[0])
+    else:
+        for a in info["sets"]:
+            pos = g.position(a)
+            if pos is not None:
+                stop_blocks.add(pos[0])
+    if not stop_blocks:
+        return None
+    loopcond = None
 
     def edge_has(edge, pred):
         for k in g.edge_facts.get(edge, ()):
@@ -263,12 +312,12 @@ def _stops_without_eof(prog, fn, g):
                 if f[2] is False and ts and all(_false_only_at_eof(t) for t in ts):
                     return True
         return False
-    starts = [(p, s_) for (p, s_) in g.edge_facts if p != loopcond and edge_has((p, s_), member_ended)]
+    starts = [(p, s_) for (p, s_) in g.edge_facts if p not in stop_blocks and edge_has((p, s_), member_ended)]
     for (p0, s0) in starts:
         seen, todo = {s0}, [s0]
         while todo:
             b = todo.pop()
-            if b == loopcond:
+            if b in stop_blocks:
                 n0 = fn.nodes.get(cfg.blocks[p0].get("cond"))
                 return fn.loc(n0) if n0 is not None else "?"
             # a block that assigns the status variable ends this path: set back to Z_OK the loop goes on,
@@ -359,6 +408,13 @@ def rule_all_members(prog, fixture=False):
                     mpos = holder.where().get(m["i"])
                     if not (rpos and mpos and rpos[0] in dom.get(mpos[0], set())):
                         cont = False
+            if not cont:
+                # a loop run by a "finished" flag simply goes round again unless the flag is set
+                li = _decompression_loop(fn)
+                if li is not None and li["kind"] == "flag" and via is None:
+                    blk = fn.where().get(rs["i"])
+                    if blk and not any(g.position(a) and g.position(a)[0] == blk[0] for a in li["sets"]):
+                        cont = True
             if more and at_end and cont:
                 ok = True
             else:
